@@ -4,6 +4,9 @@ import json, sys
 
 TRUST = "Trusted: the reference components refcbor/refcose/refiana (small, independent of coset and ciborium, cross-checked at setup), rustc/std, derived Debug of coset types as the observation of decoded values. Exhaustive only within the stated bounds (see evidence coverage.bounds and DESIGN.md section 8)."
 CHECKS = {
+ "C01": dict(section="4.1", technique="exhaustive enumeration of all short byte strings x all entry points, of all structured inputs of the other spaces with all follow-up operations, and depth/width ladders over every recursion cycle of the decoder, each in crash-isolating child processes with a counting allocator",
+   text="All byte strings of length <= 3 (quick) / 4 (thorough) into all 37 byte-level entry points; every structured input of the C07-C18 spaces with every follow-up operation (re-encode, clone, ==, Debug, drop, all tbs/verify/MAC/decrypt helpers); ladders to 64 KiB / 1 MiB over 84 words of the header<->counter-signature recursion graph, nested recipients, array/map/tag nesting and 16 width families, on an 8 MiB and a 2 MiB stack, for the crate built with and without `std`: no panic, no abnormal exit, heap and time linear in the input.",
+   note="Trusted: child exit status / signal as the crash observation; the counting global allocator of the engine; default stack sizes of the sandbox (ulimit -s 8 MiB; std::thread 2 MiB). Bounds: string length for the exhaustive sweep, 64 KiB / 1 MiB for ladders, the family list."),
  "C02": dict(section="4.2", technique="exhaustive enumeration of header contents x encodings within a deviation bound x byte-string wrappers x carrier positions; retention, re-encoding and crypto-structure slots checked on the real crate",
    text="Every encoding within 1 (quick) / 2 (thorough) deviations of 18 header contents, plus the three empty forms, carried definite / wide-head / chunked at 17 protected carrier positions: original_data and parsed view equal the reference at every nesting level, the re-encoding carries exactly the wire bytes, and every to-be-signed / MAC / AEAD structure obtainable from the decoded value carries them in its protected slot(s)."),
  "C03": dict(section="4.3", technique="exhaustive product of contexts x protected-header forms x signer forms x bstr length classes x payload placement over every API route; byte equality with an independent deterministic encoder",
